@@ -17,12 +17,21 @@ type fakeElectrum struct {
 	histErr bool
 	hist    []*goelectrum.GetMempoolResult
 	rawErr  bool
+	// histHook, when set, answers GetHistory (it may block)
+	histHook func() ([]*goelectrum.GetMempoolResult, error)
+	headers  chan *goelectrum.SubscribeHeadersResult
 }
 
 func (f *fakeElectrum) SubscribeHeaders(context.Context) (<-chan *goelectrum.SubscribeHeadersResult, error) {
-	return make(chan *goelectrum.SubscribeHeadersResult), nil
+	if f.headers == nil {
+		f.headers = make(chan *goelectrum.SubscribeHeadersResult, 8)
+	}
+	return f.headers, nil
 }
 func (f *fakeElectrum) GetHistory(context.Context, string) ([]*goelectrum.GetMempoolResult, error) {
+	if f.histHook != nil {
+		return f.histHook()
+	}
 	if f.histErr {
 		return nil, errors.New("electrum down")
 	}
@@ -35,9 +44,9 @@ func (f *fakeElectrum) GetRawTransaction(context.Context, string) (string, error
 	return "rawtx", nil
 }
 func (f *fakeElectrum) BroadcastTransaction(context.Context, string) (string, error) { return "", nil }
-func (f *fakeElectrum) GetFee(context.Context, uint32) (float32, error)               { return 0, nil }
-func (f *fakeElectrum) Ping(context.Context) error                                    { return nil }
-func (f *fakeElectrum) Reboot(context.Context) error                                  { return nil }
+func (f *fakeElectrum) GetFee(context.Context, uint32) (float32, error)              { return 0, nil }
+func (f *fakeElectrum) Ping(context.Context) error                                   { return nil }
+func (f *fakeElectrum) Reboot(context.Context) error                                 { return nil }
 
 var elTxid = "aa00000000000000000000000000000000000000000000000000000000000001"
 var elOther = "bb00000000000000000000000000000000000000000000000000000000000002"
